@@ -27,21 +27,22 @@ def openReader (src : Py.Src) (encoding : String) (lowc : F) (chardet : Option S
     (file_reader_enter r.1).bind fun e => e.2.map fun f => (r.2.1, e.1, f)
 
 /-- `parse_swc(fname, names=names, extra_cols=extra_cols, encoding=encoding)`: `linesOf` is the world - what iterating a text stream
-yields (the lines, then possibly a decode failure) -/
+yields (the lines, then possibly a decode failure); the column keys are the generated `names.cols()` -/
 def parseSwcFull (linesOf : Py.Src → Py.Stream L) (rowOf : L → Option (List Val × Bool)) (commentOf : L → Option C) (isHeader : C → Bool)
-    (blank : L → Bool) (cols : List String) (extra_cols : Option (List String)) (src : Py.Src) (encoding : String) (lowc : F)
+    (blank : L → Bool) (names : SWCNames7) (extra_cols : Option (List String)) (src : Py.Src) (encoding : String) (lowc : F)
     (chardet : Option String × F) :
     Option (List Int × List Py.Exc × FileReader × Except Py.Exc (Py.Dict String (List Val) × List C)) :=
   (parse_swc_extras extra_cols).bind fun x =>
-    (openReader src encoding lowc chardet).bind fun o =>
-      (parse_swc rowOf commentOf isHeader blank cols x.1 (toParseReader o.2.1) (linesOf o.2.2)).map fun p => (o.1, p)
+    (swc_names_cols names).bind fun cols =>
+      (openReader src encoding lowc chardet).bind fun o =>
+        (parse_swc rowOf commentOf isHeader blank cols x.1 (toParseReader o.2.1) (linesOf o.2.2)).map fun p => (o.1, p)
 
-/-- column `names.<k>` of the table as integers (`names.cols()` = `[id, type, x, y, z, r, pid]`: position 0 = id, 1 = type, 5 = r, 6 = pid) -/
-def colInt (intOf : Val → Int) (df : Py.Dict String (List Val)) (cols : List String) (k : Nat) : Option (List Int) :=
-  (cols[k]?).bind fun key => (Py.Dict.get? df key).map fun c => c.map intOf
+/-- column `df[key]` of the table as integers -/
+def colInt (intOf : Val → Int) (df : Py.Dict String (List Val)) (key : String) : Option (List Int) :=
+  (Py.Dict.get? df key).map fun c => c.map intOf
 
-/-- what `read_swc` returns: the table as parsed and the comments, the columns id / pid / type / r after repair + normalisation, and the
-three logs of warnings (encoding detection, ignored fields, tree checks) -/
+/-- what `read_swc` returns: the table as parsed and the comments, the columns `names.id / pid / type / r` after repair + normalisation,
+and the three logs of warnings (encoding detection, ignored fields, tree checks) -/
 structure Out (Val C σ : Type) where
   df : Py.Dict String (List Val)
   comments : List C
@@ -54,18 +55,23 @@ structure Out (Val C σ : Type) where
   warnCheck : List Int
   cbs : σ
 
-/-- `read_swc(swc_file, extra_cols, fix_roots, sort_nodes, reset_index, encoding=encoding, names=names)`; `none` = an exception of an
-untracked kind, `error e` = the exception `parse_swc` raises -/
+/-- `read_swc(swc_file, extra_cols, fix_roots, sort_nodes, reset_index, encoding=encoding, names=names)`: the generated first half
+(`read_swc_front`: `get_names`, then the call of `parse_swc` = `parseSwcFull` with the arguments as the source binds them), then the
+generated tail on the columns `df[names.id]`, `df[names.pid]`, `df[names.type]`, `df[names.r]`; `none` = an exception of an untracked kind,
+`error e` = the exception `parse_swc` raises -/
 def readSwcFull (linesOf : Py.Src → Py.Stream L) (rowOf : L → Option (List Val × Bool)) (commentOf : L → Option C) (isHeader : C → Bool)
-    (blank : L → Bool) (intOf : Val → Int) (norm : σ → Int → σ × List Int) (fuel : Nat) (cols : List String)
+    (blank : L → Bool) (intOf : Val → Int) (norm : σ → Int → σ × List Int) (fuel : Nat)
     (src : Py.Src) (extra_cols : Option (List String)) (fix_roots : Option String) (sort_nodes reset_index : Bool) (encoding : String)
-    (lowc : F) (chardet : Option String × F) (cbs : σ) : Option (Except Py.Exc (Out Val C σ)) :=
-  (parseSwcFull linesOf rowOf commentOf isHeader blank cols extra_cols src encoding lowc chardet).bind fun p =>
+    (names : Option SWCNames7) (lowc : F) (chardet : Option String × F) (cbs : σ) : Option (Except Py.Exc (Out Val C σ)) :=
+  (read_swc_front (fun f nm xs enc => (parseSwcFull linesOf rowOf commentOf isHeader blank nm xs f enc lowc chardet).map fun p => (p, ()))
+      src extra_cols encoding names).bind fun r =>
+    let nm := r.1
+    let p := r.2.1
     match p.2.2.2 with
     | .error e => some (.error e)
     | .ok (df, comments) =>
-      (colInt intOf df cols 0).bind fun ids => (colInt intOf df cols 6).bind fun pids =>
-      (colInt intOf df cols 1).bind fun types => (colInt intOf df cols 5).bind fun rs =>
+      (colInt intOf df nm.id).bind fun ids => (colInt intOf df nm.pid).bind fun pids =>
+      (colInt intOf df nm.type).bind fun types => (colInt intOf df nm.r).bind fun rs =>
       (read_swc_fix norm fuel ids pids types rs fix_roots sort_nodes reset_index cbs).map fun r =>
         .ok ⟨df, comments, r.1, r.2.1, r.2.2.1, r.2.2.2.1, p.1, p.2.1, r.2.2.2.2.1, r.2.2.2.2.2.1⟩
 
@@ -100,5 +106,15 @@ def handleReadFront (args : List String) : String :=
       s!"ok fname={showSrc r.fname} fb={showOptSrc r.fb} f={showOptSrc r.f} encoding={r.encoding} ret={showSrc f} warn={Proto.showInts ws} extras={if ex.isEmpty then "_" else ",".intercalate ex}"
     | _, _ => "E"
   | _, _, _, _, _, _, _, _ => "bad-args"
+
+/-- `gprologue extra=_|a,b,…` → `re=<regex text> last=<n> tf=<0|1,…> hdr=<ignored comment>` (default names) / `E` -/
+def handlePrologue (args : List String) : String :=
+  match Proto.arg args "extra" with
+  | some extra =>
+    let xs : List String := if extra = "_" then [] else extra.splitOn ","
+    match (get_names none).bind fun nm => parse_swc_prologue nm xs with
+    | some (tf, re, last, hdr, _) => s!"re={re} last={last} tf={Proto.showInts tf} hdr={hdr}"
+    | none => "E"
+  | none => "bad-args"
 
 end AlgoRun
